@@ -1155,6 +1155,31 @@ func suitePath(tier string, r *rng) func(emit func(pureCase)) {
 				emit(pureCase{line: "ridpath " + hx(rid) + " " + hx(pre), impl: hx(server.RIDToPath(rid, pre)), class: "ridpath"})
 			}
 		}
+		// RIDToPath on arbitrary byte strings (every single byte, random strings), and the round
+		// trip PathToRID(RIDToPath(rid)) = rid, which Proofs/Path.lean proves for the model
+		roundTrip := func(rid, pre, q string) {
+			path := server.RIDToPath(rid, pre)
+			c := pureCase{line: "ridpathb " + hx(rid) + " " + hx(pre), impl: hx(path), class: "ridpathb", trivial: rid == ""}
+			if rid != "" && rid[0] != '.' {
+				want := rid
+				if q != "" {
+					want += "?" + q
+				}
+				if back := server.PathToRID(path, q, pre); back != want {
+					c.specErr = fmt.Sprintf("PathToRID(RIDToPath(%q)) = %q", rid, back)
+				}
+			}
+			emit(c)
+		}
+		for b := 0; b < 256; b++ {
+			roundTrip(string([]byte{byte(b)}), "/api/", "")
+			roundTrip("a."+string([]byte{byte(b)})+"b", "/", "q=1")
+		}
+		ralpha := []string{"a", "b", ".", "?", "=", "&", "/", "%", " ", "{cid}", "*", ">", "\x00", "\x7f", "\x80", "\xff", "é", "+", "~", "$", ":", "@", "-", "_"}
+		nr := nRand / 10
+		for i := 0; i < nr; i++ {
+			roundTrip(randString(r, ralpha, 10), prefixes[r.intn(len(prefixes))], randString(r, []string{"q=a", "&", "x.y", ""}, 2))
+		}
 	}
 }
 
